@@ -1769,6 +1769,13 @@ func (w *ResponseWriter) WriteMsg(res *dns.Msg) error {
 			clamped := w.cache.ecsPolicy.ClampScope(respScope, w.clientScope)
 			scopedKey := CacheKey{Question: q, CD: res.CheckingDisabled, Scope: clamped}.Hash()
 			w.cache.store.SetFromResponseScoped(scopedKey, res, clamped, cutUntil, cutKey)
+		} else if ecs.TailoredButUnreadable(res) {
+			// A non-zero SCOPE in an option that cannot be read (unknown
+			// family, address of the other family): tailored to somebody,
+			// so it stays with the subnet it was obtained for.
+			clamped := w.cache.ecsPolicy.ClampScope(w.clientScope, w.clientScope)
+			scopedKey := CacheKey{Question: q, CD: res.CheckingDisabled, Scope: clamped}.Hash()
+			w.cache.store.SetFromResponseScoped(scopedKey, res, clamped, cutUntil, cutKey)
 		} else {
 			// No SCOPE in response (or SCOPE=0): authority says
 			// "global"; cache shared so future non-ECS clients hit.
